@@ -211,6 +211,7 @@ theorem c13_equiv_partial :
 /-- KNOWN FINDINGS: generated files that do not type-check. -/
 def compileKnown (c : GenCell) : Bool :=
   c.rules.contains .url ||
+  c.rules.any (fun r => match r with | .min n | .max n => decide (2 ^ 63 - 1 < n) | _ => false) ||  -- Uint64().Max takes an int64
   (match c.fty.base.cls, c.fty.ptr with
    | .slice, false => true                                   -- gozod.Slice(elem): cannot infer T
    | .slice, true => c.rules.any (fun r => match r with | .min _ | .max _ => true | _ => false)  -- FromStruct[[]T]().Min undefined
